@@ -10,6 +10,10 @@ CLAIMS = {
          "Renderings (short notation / JSON blocks) are checked by parsing them back in the harness; their Lean statement is partial.", "8/C02"),
  'C03': ("Lean theorems: a path is reported only if it is a matched walk to a leaf with no validated block, so if every such walk has a validated block nothing is reported (C03_no_report); exactness of the set domains and of the fee chain; direct checks validate their block; + correspondence of contexts and paths + EXACT verdict oracle on the systematic direct-check family (field x operator x operand order x constant x consumption form x unknown-operand variants), where the concrete semantics coincides with the literal reading and every (size,index) / fee representative is enumerated",
          "The distributive-framework argument (computed context = union over paths) is not yet a Lean theorem; exactness is decided on the direct-check family by exhaustive region enumeration.", "8/C03"),
+ 'C17': ("Lean theorems: every Python operation that can raise is an explicit Except/Option in the model; proved: label resolution, list.remove, pruning and the path search do not raise under the stated graph conditions; + `tealer detect` (text, JSON) and all five printers run as SUBPROCESSES on adversarial layouts (dead code that branches or calls, labels at end, empty subroutines, back-to-back labels, branch / call last, recursion, duplicate switch labels) and generated programs: exit status 0 and no traceback",
+         "Partial by nature: process exit status, file system, recursion limit are observed, not modelled. Termination (fuel bounds) is not yet a theorem. Known findings F21, F22.", "8/C17"),
+ 'C18': ("Lean theorems on the output model: count = number of listed paths and one instruction list per block occurrence, success iff no error, --filter-paths removes exactly the matching paths (parametric in the matcher), path marks by block id; + every exported file is PARSED BACK on every run: JSON envelope / count / short notations / per-block instruction lists, cfg DOT node set, node line numbers and edge set = global graph, path DOT marks = path blocks, transaction-context annotations = computed contexts, subroutine-cfg node sets, call-graph edges, --filter-paths results",
+         "Partial by nature: files on disk and Python's re are external. The DOT reader understands exactly the shapes tealer emits.", "8/C18"),
  'C16': ("Lean theorems (kernel decide over the parse table REGENERATED from the real parse_line on every run): every opcode sample is parsed into the class and printed form of the specification table (no prefix capture), its printed form parses back to an identical instruction, unknown opcodes are kept verbatim; + the real parser run on every sample x whitespace/comment variants, decimal/hex/octal integer spellings, hex/base64/base32 byte forms, programs with blank and comment lines for the recorded line numbers",
          "Python's int(), base64 and re are not modelled (partial by nature). Known finding F19 (method signature printed without quotes).", "8/C16"),
  'C19': ("Lean theorems (kernel decide over regenerated tables): introduction version, execution mode and per-version opcode cost of every sample equal the specification tables; model of the version flag and of mode detection; + the real parse_teal run on every sample x declared versions 1..8 (stderr of the version check), random mode mixtures (mode, mixed-mode report, contract type) and random blocks (displayed cost = sum of table costs)",
